@@ -24,9 +24,9 @@ type csimVariant struct {
 // computed pointer that is actually dereferenced out of bounds is still caught
 // by ASan.
 var csimVariants = map[string]csimVariant{
-	"asan":         {"asan", []string{"-O1", "-g", "-fsanitize=address,undefined", "-fno-sanitize=pointer-overflow", "-fno-sanitize-recover=undefined", "-fno-omit-frame-pointer"}},
+	"asan":         {"asan", []string{"-O1", "-g", "-fsanitize=address,undefined", "-fno-sanitize=pointer-overflow", "-fno-sanitize=nonnull-attribute", "-fno-sanitize-recover=undefined", "-fno-omit-frame-pointer"}},
 	"plain":        {"plain", []string{"-O2"}},
-	"asan_nosimd":  {"asan_nosimd", []string{"-O1", "-g", "-fsanitize=address,undefined", "-fno-sanitize=pointer-overflow", "-fno-sanitize-recover=undefined", "-fno-omit-frame-pointer", "-DWUFFS_CONFIG__AVOID_CPU_ARCH"}},
+	"asan_nosimd":  {"asan_nosimd", []string{"-O1", "-g", "-fsanitize=address,undefined", "-fno-sanitize=pointer-overflow", "-fno-sanitize=nonnull-attribute", "-fno-sanitize-recover=undefined", "-fno-omit-frame-pointer", "-DWUFFS_CONFIG__AVOID_CPU_ARCH"}},
 	"plain_nosimd": {"plain_nosimd", []string{"-O2", "-DWUFFS_CONFIG__AVOID_CPU_ARCH"}},
 }
 
